@@ -105,11 +105,21 @@ func buildAObj(o AObj) interface{} {
 	if o.K == "map" {
 		switch o.G {
 		case "mss":
-			return map[string]string{"X": "x", "Y": "y"}
+			m := map[string]string{"X": "x", "Y": "y"}
+			if o.Ptr {
+				return &m
+			}
+			return m
 		case "msi":
 			return map[string]int{"X": 8, "Y": 9}
+		case "mii":
+			return map[interface{}]interface{}{"X": 8, "Y": 9, 1: "one", 2.5: "f"}
 		}
-		return map[string]interface{}{"X": 8, "Y": 9, "0": 7, "": 6, "1": 5}
+		m := map[string]interface{}{"X": 8, "Y": 9, "0": 7, "": 6, "1": 5}
+		if o.Ptr {
+			return &m
+		}
+		return m
 	}
 	sh := o.Sh
 	if o.EmbNil {
@@ -199,13 +209,25 @@ func runAttrHist(c *ACase) (res Result) {
 			desc = "*" + desc
 		}
 		want := textOf(op.Want, nil, false)
-		for _, form := range []string{"attr", "item"} {
+		for _, form := range []string{"attr", "item", "defined"} {
 			if form == "item" && op.Obj.K != "map" {
+				continue
+			}
+			// (whether a field promoted from an embedded pointer that is nil counts as defined is not stated)
+			if form == "defined" && (op.Any || op.Obj.EmbNil) {
 				continue
 			}
 			src := "{{ o." + op.N + " }}"
 			if form == "item" {
 				src = "{{ o['" + op.N + "'] }}"
+			}
+			if form == "defined" {
+				// the member exists iff the lookup yields something (no member of the shapes holds null)
+				src = "{{ o." + op.N + " is defined ? 'D' : 'U' }}"
+				want = "U"
+				if len(op.Want) > 0 {
+					want = "D"
+				}
 			}
 			trail = append(trail, desc+"."+op.N)
 			if err := e.RegisterString("t", src); err != nil {
